@@ -18,7 +18,7 @@ func registerStunStubs() {
 		reason := e.nondetFreshSlice(c.st, "reason", 4)
 		attr := StructV{f: []Value{c.args[0], reason}}
 		fn := e.prog.LookupMethod(at, pkg.Pkg, "AddTo")
-		e.funcsSeen[fn.String()] = true
+		e.sawFunc(fn.String())
 		e.pushFrame(c.st, fn, []Value{attr, c.args[1]}, nil, c.res)
 		return false
 	}
@@ -30,7 +30,7 @@ func registerStunStubs() {
 		c.st.mut(tid).arr = e.freshBytes(c.st, "tid", 12)
 		pkg := e.prog.ImportedPackage(stunPath)
 		fn := e.prog.LookupMethod(types.NewPointer(pkg.Type("Message").Type()), pkg.Pkg, "WriteTransactionID")
-		e.funcsSeen[fn.String()] = true
+		e.sawFunc(fn.String())
 		if c.res != nil {
 			c.f.locals[c.res] = IfaceV{}
 		}
